@@ -55,10 +55,10 @@ type MetricRegistry struct {
 	registeredListeners map[string]*metricSampleListener
 
 	mu sync.Mutex
-	wg sync.WaitGroup
 
 	started bool
-	stopper chan bool
+	stopper chan bool     // stop signal of the running poller
+	stopped chan struct{} // closed when the running poller has exited
 }
 
 // NewMetricRegistry will create a new Datadog MetricRegistry.
@@ -122,20 +122,24 @@ func NewMetricRegistryWithClient(
 func (r *MetricRegistry) Start() {
 	r.mu.Lock()
 	if !r.started {
-		r.wg.Add(1)
-		go func() {
-			defer r.wg.Done()
-			r.run()
-		}()
+		r.started = true
+		// every poller gets its own stop channel so that a stop signal can only reach the poller it was meant for
+		r.stopper = make(chan bool, 1)
+		r.stopped = make(chan struct{})
+		go func(stopper chan bool, stopped chan struct{}) {
+			defer close(stopped)
+			r.run(stopper)
+		}(r.stopper, r.stopped)
 	}
 	r.mu.Unlock()
 }
 
-func (r *MetricRegistry) run() {
+func (r *MetricRegistry) run(stopper chan bool) {
 	ticker := time.NewTicker(r.pollFrequency)
+	defer ticker.Stop()
 	for {
 		select {
-		case <-r.stopper:
+		case <-stopper:
 			return
 		case <-ticker.C:
 			// poll the gauges
@@ -159,9 +163,11 @@ func (r *MetricRegistry) Stop() {
 		return
 	}
 	r.stopper <- true
-	r.wg.Wait()
+	stopped := r.stopped
 	r.started = false
 	r.mu.Unlock()
+	// wait for the poller outside of the lock: it needs the lock to finish the poll it may be in
+	<-stopped
 }
 
 // RegisterDistribution will register a distribution sample to this registry
